@@ -9,8 +9,11 @@ RULE = ("one case = one simulated run: a program (per-thread op lists), per-run 
         "merged across workers and jobs with a sort/unique pass")
 
 
+QUICK_SCALE = 3
+
+
 def J(name, wl, quick, thorough, **params):
-    d = {"name": name, "wl": wl, "quick": quick, "thorough": thorough, "params": {}}
+    d = {"name": name, "wl": wl, "quick": int(quick * QUICK_SCALE), "thorough": thorough, "params": {}}
     for k, v in params.items():
         if k in ("limits", "time_ms", "fork_each"):
             d[k] = v
@@ -52,10 +55,15 @@ PROPS = {
                mode="handle", disabled=1)]},
     "C15": {"jobs": wrappers("reg", ["atomic_guarded", "guarded", "guarded_opt", "ordered_guarded",
                                      "deferred_rw"], 100000, 2500000)},
-    "C03": {"jobs": [J("lr.std", "wl_lr", 200000, 6000000, mode="std")]},
+    "C03": {"jobs": [J("lr.std", "wl_lr", 200000, 6000000, mode="std"),
+                     # the statement quantifies over the memory-model behaviours of the atomics:
+                     # an unordered reader/writer pair on the payload is a C03 violation too
+                     J("lr.mm", "wl_lr", 100000, 3000000, mode="std", races=1)]},
     "C04": {"jobs": [J("cow.std", "wl_cow", 150000, 4000000, mode="std")]},
     "C05": {"jobs": [J("rcu.std", "wl_rcu", 120000, 3000000, mode="std", elem=0),
-                     J("rcu.std.string", "wl_rcu", 40000, 1000000, mode="std", elem=1)]},
+                     J("rcu.std.string", "wl_rcu", 40000, 1000000, mode="std", elem=1),
+                     # handles and iterators taken while a writer is parked inside push/erase
+                     J("rcu.window", "wl_rcu", 60000, 1500000, mode="window", elem=0)]},
     "C06": {"jobs": [J("deferred", "wl_deferred", 200000, 5000000)]},
     "C09": {"jobs": [J("barrier", "wl_barrier", 300000, 8000000)]},
     "C10": {"jobs": [J("latch", "wl_latch", 300000, 8000000)]},
